@@ -1,12 +1,38 @@
 #!/bin/sh
 # dev.sh <cNN> [quick|thorough] [extra vcheck flags]: build and run ONE driver through its own
 # tiny main (harness/cmd/dev/<cNN>/main.go), so that work on other drivers cannot break the build.
+#
+# VERIF_REPO=/path/to/scratch/copy  builds against that copy of go-cty instead of /repo
+#   (used for trying a fix or a deliberate break in a scratch worktree). In that mode evidence,
+#   replays and run directories go to a private root under .build/alt/<cNN>/ so that nothing
+#   registered is overwritten.
 set -u
 ROOT="$(cd "$(dirname "$0")" && pwd)"
-export GOFLAGS=-mod=mod GOPROXY=off GOSUMDB=off GOTOOLCHAIN=local VERIF_ROOT="$ROOT"
+export GOFLAGS=-mod=mod GOPROXY=off GOSUMDB=off GOTOOLCHAIN=local
 ID="$1"; shift
 TIER="${1:-quick}"; [ $# -gt 0 ] && shift
 UP=$(echo "$ID" | tr a-z A-Z)
 mkdir -p "$ROOT/.build"
+RACE=""
+[ "$ID" = "c20" ] && RACE=1
+if [ -n "${VERIF_REPO:-}" ]; then
+  ALT="$ROOT/.build/alt/$ID"
+  mkdir -p "$ALT/evidence"
+  sed "s#=> /repo#=> $VERIF_REPO#" "$ROOT/harness/go.mod" > "$ALT/go.mod"
+  cp "$ROOT/harness/go.sum" "$ALT/go.sum"
+  cp "$ROOT/known_findings.json" "$ALT/known_findings.json"
+  export VERIF_ROOT="$ALT"
+  cd "$ROOT/harness" && go build -modfile="$ALT/go.mod" -tags verif -o "$ALT/dev_$ID" "./cmd/dev/$ID" || exit 2
+  if [ -n "$RACE" ]; then
+    go build -modfile="$ALT/go.mod" -race -tags verif -o "$ALT/dev_${ID}_race" "./cmd/dev/$ID" || exit 2
+    export VCHECK_RACE_EXE="$ALT/dev_${ID}_race"
+  fi
+  cd "$ROOT" && exec "$ALT/dev_$ID" -prop "$UP" -tier "$TIER" "$@"
+fi
+export VERIF_ROOT="$ROOT"
 cd "$ROOT/harness" && go build -tags verif -o "$ROOT/.build/dev_$ID" "./cmd/dev/$ID" || exit 2
+if [ -n "$RACE" ]; then
+  go build -race -tags verif -o "$ROOT/.build/dev_${ID}_race" "./cmd/dev/$ID" || exit 2
+  export VCHECK_RACE_EXE="$ROOT/.build/dev_${ID}_race"
+fi
 cd "$ROOT" && exec "$ROOT/.build/dev_$ID" -prop "$UP" -tier "$TIER" "$@"
